@@ -39,7 +39,7 @@ var vNull = obj{"t": "null"}
 
 type rgen struct{ r *rand.Rand }
 
-func (g *rgen) pick(xs ...any) any { return xs[g.r.Intn(len(xs))] }
+func (g *rgen) pick(xs ...any) any    { return xs[g.r.Intn(len(xs))] }
 func (g *rgen) chance(p float64) bool { return g.r.Float64() < p }
 
 func (g *rgen) value() obj {
@@ -240,7 +240,7 @@ var aux = []any{
 // callCase draws a method call.
 func (g *rgen) callCase() (string, obj) {
 	methods := []string{"slice", "splice", "splice", "indexOf", "lastIndexOf", "push", "pop", "shift", "unshift", "reverse", "join", "toString",
-		"concat", "every", "some", "forEach", "map", "filter", "reduce", "reduceRight", "sort", "sort"}
+		"concat", "every", "some", "forEach", "map", "filter", "reduce", "reduceRight", "sort", "sort", "sort", "sort"}
 	m := methods[g.r.Intn(len(methods))]
 	var args []any
 	recv := g.receiver(g.value, false)
@@ -321,6 +321,8 @@ func (g *rgen) callCase() (string, obj) {
 
 var histNames = []string{"0", "1", "2", "3", "01", "+1", "1.0", "1e0", "-0", "00", "+0", "-1", "007", " 1", "4294967294", "4294967295", "4294967296", "x"}
 
+var nonCanonical = map[string]bool{"01": true, "+1": true, "-0": true, "00": true, "+0": true, "007": true}
+
 func (g *rgen) histCase() obj {
 	n := 1 + g.r.Intn(12)
 	big := false
@@ -344,6 +346,14 @@ func (g *rgen) histCase() obj {
 				if name == "4294967294" {
 					big = true
 				}
+				if nonCanonical[name] {
+					// The implementation keeps "attribute absent" marks in a property created from a partial
+					// descriptor; they are unobservable except when such a property is later used as the
+					// descriptor of ANOTHER property, which only the open deviation D08_index_parseint does
+					// (freeze/seal of "+1" redefines "1").  Arr.tla does not model the marks, so partial
+					// descriptors are not drawn for non-canonical numeric names.
+					return obj{"op": "define", "n": vStr(name), "d": g.desc(g.chance(0.7), vNum(float64(1+g.r.Intn(3))), 1, 1, 1)}
+				}
 				return obj{"op": "define", "n": vStr(name), "d": g.desc(g.chance(0.7), vNum(float64(1+g.r.Intn(3))), 0.5, 0.3, 0.5)}
 			case 6:
 				if big {
@@ -358,10 +368,21 @@ func (g *rgen) histCase() obj {
 				}
 				continue
 			default:
-				if g.chance(0.5) {
+				// looping methods only while no index near 2^32 can exist (they iterate up to length)
+				switch k := g.r.Intn(7); {
+				case k == 0 || (big && k%2 == 0):
 					return obj{"op": "call", "m": "push", "args": []any{vNum(9)}}
+				case k == 1 || big:
+					return obj{"op": "call", "m": "pop", "args": []any{}}
+				case k == 2:
+					return obj{"op": "call", "m": "shift", "args": []any{}}
+				case k == 3:
+					return obj{"op": "call", "m": "unshift", "args": []any{vNum(8)}}
+				case k == 4:
+					return obj{"op": "call", "m": "reverse", "args": []any{}}
+				default:
+					return obj{"op": "call", "m": "splice", "args": []any{vNum(float64(g.r.Intn(4))), vNum(float64(g.r.Intn(3))), vNum(6)}}
 				}
-				return obj{"op": "call", "m": "pop", "args": []any{}}
 			}
 		}
 	}
@@ -373,9 +394,10 @@ func (g *rgen) histCase() obj {
 }
 
 type judged struct {
-	I    int             `json:"i"`
-	V    string          `json:"v"`
-	Want json.RawMessage `json:"want"`
+	I       int             `json:"i"`
+	V       string          `json:"v"`
+	Want    json.RawMessage `json:"want"`
+	WantDev json.RawMessage `json:"wantdev"`
 }
 
 // runJudge generates n random events, runs them and lets TLC judge them.
@@ -485,7 +507,7 @@ func runJudge(c *core.Ctx, n int) (map[string]any, error) {
 			}
 			bad++
 			c.Violate(fmt.Sprintf("random case rejected by the TLC judge: %s  =>  implementation %s ; specification %s", r.src, trunc(r.out, 300), trunc(string(j.Want), 300)),
-				map[string]any{"js": r.src, "consts": r.consts, "observed": r.out, "expected": j.Want})
+				map[string]any{"js": r.src, "consts": r.consts, "observed": r.out, "expected": j.Want, "expected_under_deviations": j.WantDev})
 		}
 	})
 	if err != nil {
